@@ -187,6 +187,16 @@ func main() {
 		}
 	}
 	gen(nil)
+	// documents around the sizes at which something in the path could switch strategy (a 32 KiB or 64 KiB buffer):
+	// large chunks alone, first and last
+	for _, cur := range [][]int{{32768}, {32769}, {33000}, {65536}, {65537}, {70000}, {5000, 33000}, {33000, 1}, {100, 70000}, {70000, 100}, {4096, 4096, 4096, 4096, 4096, 4096, 4096, 4096, 1}} {
+		for _, n := range []bool{false, true} {
+			comps = append(comps, comp{chunks: cur, nested: n})
+			for k := range failCauses {
+				comps = append(comps, comp{chunks: cur, fail: true, cause: k, nested: n})
+			}
+		}
+	}
 	var configs []config
 	for _, st := range []int{0, 200, 201, 404} {
 		for _, ct := range []string{"", "text/plain; charset=utf-8", "application/xhtml+xml"} {
